@@ -47,7 +47,7 @@ fn parse_state(dbg: &str) -> Option<(usize, Option<usize>)> {
 pub fn run_c08(cx: &Ctx) -> i32 {
     let space = iter_space(cx);
     let alphabet = spaces::sigma4();
-    let max_len = 3;
+    let max_len = if cx.quick() { 3 } else { 4 };
     let texts = space::texts(&alphabet, max_len);
     let tallies = par::run_workers(32, |_w, claimer| {
         engine::quiet_panics();
@@ -277,7 +277,7 @@ pub fn run_c08(cx: &Ctx) -> i32 {
 pub fn run_c10(cx: &Ctx) -> i32 {
     let space = iter_space(cx);
     let alphabet = spaces::sigma4();
-    let max_len = 3;
+    let max_len = if cx.quick() { 3 } else { 4 };
     let texts = space::texts(&alphabet, max_len);
     let tallies = par::run_workers(32, |_w, claimer| {
         engine::quiet_panics();
